@@ -1,6 +1,7 @@
 """C16 - saved values restore to equal values; saves are atomic; restore is robust."""
 import os
 import re
+import shutil
 import struct
 
 from nvlib import engine as E
@@ -87,12 +88,14 @@ class C16(Prop):
     theorems = ["NV.C16.Props." + t for t in (
         "size_bounds_output", "saveVariable_no_crash", "saveObject_no_crash", "restore_total", "restoreObject_total",
         "roundtrip", "safe_restore_keeps_old_on_error", "restoreObject_error_keeps_variable", "save_atomic",
-        "save_complete", "save_atomic_failure", "statics_and_objects_not_persisted")]
+        "save_complete", "save_atomic_failure", "statics_and_objects_not_persisted",
+        "saveObject_writes_each_nonstatic_variable_its_own_value", "saveLines_spec", "saveLines_sub", "findGlobal_flat",
+        "cns_flat", "restoreObjectT_flat", "object_roundtrip")]
     witness_theorems = ["NV.C16.Witness." + t for t in (
         "float_keys_collapse", "roundtripFloatKeys_Full_false", "cr_round_trips", "stray_byte_in_array_ok",
-        "inf_is_written_as_number")]
-    consts = [("maxSaveSvalueDepth", "MAX_SAVE_SVALUE_DEPTH")]
-    const_headers = ["lib/efuns/options.h"]
+        "inf_is_written_as_number", "same_name_saved", "same_name_variables")]
+    consts = [("maxSaveSvalueDepth", "MAX_SAVE_SVALUE_DEPTH"), ("nameStatic", "NAME_STATIC")]
+    const_headers = ["lib/efuns/options.h", "lib/lpc/program.h"]
     quick_n = 1200
     thorough_n = 20000
     search_n = 1500
@@ -184,10 +187,75 @@ class C16(Prop):
     def prepare(self, ctx):
         self.exe = E.compile_harness("c16", [os.path.join(E.VERIF, "harness/c16/c16.c")], extra=["-ldl"])
         self.conf = E.make_mudlib(ctx.rundir)
+        self.mud = os.path.join(ctx.rundir, "mudlib")
+        self.last_impl = {}
+
+    MODS = {"n": "", "s": "static ", "p": "private ", "u": "public ", "sp": "private static ", "t": "protected "}
+
+    @staticmethod
+    def _dir_of(cid):
+        return "d" + "".join(ch if ch.isalnum() else "_" for ch in cid)
+
+    def lpc_source(self, line, base):
+        """`prog <name> i:<mod>:<prog>.. v:<mod>:<var>..`  ->  LPC source of that program"""
+        t = line.split()
+        out = ["// generated by props/c16.py from: " + line]
+        for x in t[2:]:
+            k, mod, name = x.split(":")
+            if k == "i":
+                out.append('%sinherit "%s/%s";' % (self.MODS[mod], base, name))
+        for x in t[2:]:
+            k, mod, name = x.split(":")
+            if k == "v":
+                out.append("%smixed %s;" % (self.MODS[mod], name))
+        out += ["void create () { seteuid (getuid ()); }", "void set_oid (string s) { }",
+                "int so (string f, int z) { return save_object (f, z); }",
+                "int ro (string f, int nc) { return restore_object (f, nc); }", ""]
+        return "\n".join(out)
 
     def run_impl(self, ctx, cases):
-        # the save file lives in the mudlib copy: one fresh copy per batch, every case removes the file first
-        return E.run_harness(self.exe, self.conf, cases, ctx.rundir)
+        # the save file lives in the mudlib copy: one fresh copy per batch, every case removes the file first.
+        # `prog` lines of a case are written as LPC files below /c16/g/<case>/ and `useg <name>` is pointed there
+        hc, made = [], []
+        for c in cases:
+            if not any(l.startswith("prog ") for l in c.lines):
+                hc.append(c)
+                continue
+            d = self._dir_of(c.id)
+            base = "/c16/g/" + d
+            path = os.path.join(self.mud, "c16", "g", d)
+            shutil.rmtree(path, ignore_errors=True)
+            os.makedirs(path)
+            made.append(path)
+            lines = []
+            for l in c.lines:
+                t = l.split()
+                if t and t[0] == "prog" and len(t) >= 2:
+                    with open(os.path.join(path, t[1] + ".c"), "w") as f:
+                        f.write(self.lpc_source(l, base))
+                    continue
+                if len(t) == 2 and t[0] == "useg" and "/" not in t[1]:
+                    l = "useg %s/%s" % (base, t[1])
+                lines.append(l)
+            hc.append(E.Case(c.id, lines))
+        res = E.run_harness(self.exe, self.conf, hc, ctx.rundir)
+        for path in made:
+            shutil.rmtree(path, ignore_errors=True)
+        self.last_impl.update({k: self.canon(v) for k, v in res.items()})
+        return res
+
+    def run_model(self, ctx, cases):
+        """the model runs on the REAL program trees: the `tree` lines dumped by the harness are appended to the case"""
+        ms = []
+        for c in cases:
+            if not any(l.startswith("useg ") for l in c.lines):
+                ms.append(c)
+                continue
+            impl = self.last_impl.get(c.id)
+            if impl is None:
+                impl = self.canon(self.run_impl(ctx, [c]).get(c.id, []))
+            ms.append(E.Case(c.id, c.lines + ["--"] + [l for l in impl if l.startswith("tree ")]))
+        return E.nvdrive(self.id, "model", E.cases_text(ms))
 
     def canon(self, lines):
         return [l.rstrip() for l in lines if l.strip() != ""]
@@ -255,6 +323,69 @@ class C16(Prop):
             seen |= tags
             items.append((key, self.gen_value(rng, depth + 1, maxdepth)))
         return ("m", items)
+
+    # ---- program trees ---------------------------------------------------
+    @staticmethod
+    def layout(progs, name, st=False):
+        """slots of a declared program: [(var name, static?)], inherits first (python mirror of the oracle's rule)"""
+        inhs, vars_ = progs[name]
+        out = []
+        for m, n in inhs:
+            out += C16.layout(progs, n, st or m in ("s", "sp"))
+        return out + [(n, st or m in ("s", "sp")) for m, n in vars_]
+
+    @staticmethod
+    def prog_lines(progs):
+        return [("prog %s %s" % (n, " ".join(["i:%s:%s" % x for x in progs[n][0]] + ["v:%s:%s" % x for x in progs[n][1]]))).rstrip()
+                for n in progs]
+
+    def tree_case_lines(self, rng, progs, top, steps=None):
+        n = len(self.layout(progs, top))
+        def vals(deep):
+            return vtxt(("a", [self.gen_value(rng, 0, 2) if deep and rng.chance(1, 3) else self.gen_scalar(rng) for _ in range(n)]))
+        lines = ["rm"] + self.prog_lines(progs) + ["useg " + top]
+        for st in steps or ["so", "ro"]:
+            if st == "so":
+                lines += ["setm " + vals(True), "so %d" % rng.below(2)]
+            elif st == "ro":
+                lines += ["setm " + vals(False), "ro %d" % rng.below(2)]
+            elif st == "cp":
+                lines += ["setm " + vtxt(("a", [("i", rng.range(1000, 9999))] * n)), "cp %d" % rng.below(2), "cf 1"]
+        return lines
+
+    def gen_progs(self, rng, allow_dups):
+        """random inheritance graph: up to 6 programs, depth <= 3 below the top, static / plain / private / public inherits
+        at every level, static variables in the middle; with allow_dups also variables of one name at two levels and
+        a program inherited twice"""
+        k = rng.range(2, 6)
+        progs, depth = {}, {}
+        for i in range(k):
+            name = "p%d" % i
+            inhs = []
+            cands = [j for j in range(i) if depth["p%d" % j] < 3]
+            if cands and (i == k - 1 or rng.chance(2, 3)):
+                for _ in range(rng.weighted([(1, 5), (2, 3), (3, 1)])):
+                    j = rng.choice(cands)
+                    if any(x[1] == "p%d" % j for x in inhs) and not allow_dups:
+                        continue
+                    inhs.append((rng.weighted([("n", 5), ("s", 4), ("p", 1), ("u", 1)]), "p%d" % j))
+            depth[name] = 1 + max([depth[x[1]] for x in inhs] + [0])
+            vars_ = []
+            for q in range(rng.weighted([(0, 1), (1, 3), (2, 4), (3, 3), (4, 1)])):
+                vn = "%s%d" % ("abcdwxyz"[q], i)
+                if allow_dups and rng.chance(1, 3) and i > 0:
+                    vn = "%s%d" % ("abcdwxyz"[rng.below(3)], rng.below(i))
+                if any(x[1] == vn for x in vars_):
+                    continue
+                vars_.append((rng.weighted([("n", 6), ("s", 3), ("p", 2), ("sp", 1), ("u", 1), ("t", 1)]), vn))
+            progs[name] = (inhs, vars_)
+        top = "p%d" % (k - 1)
+        if not allow_dups:
+            # a diamond puts the same program (hence the same names) twice into the object: only with allow_dups
+            names = [x[0] for x in self.layout(progs, top)]
+            if len(set(names)) != len(names):
+                return self.gen_progs(rng, allow_dups)
+        return progs, top
 
     def rx_ok(self, v):
         """values whose python-made save text is unambiguous: no floats (text made by python's %g)"""
@@ -415,6 +546,21 @@ class C16(Prop):
             "set %s i1 i2 i3 %s" % (vtxt(self.nest(25, "mix")), vtxt(self.nest(12, "mv"))), "so 0", "set i0 i0 i0 i0 i0", "ro 0"])
         mk("too-deep-object", ["set i1 %s i2 i3 i4" % vtxt(self.nest(26, "m")), "so 0", "ro 0",
                                "set i1 %s i2 i3 i4" % vtxt(self.nest(25, "m")), "so 0", "ro 0"])
+        T = {"p0": ([], [("n", "a"), ("s", "b")]), "p1": ([("n", "p0")], [("n", "c")]),
+             "p2": ([("s", "p1")], [("n", "d"), ("p", "e")])}
+        B.append(E.Case("b-static-inherit-of-inheriting-program", self.tree_case_lines(E.Rng(21), T, "p2", ["so", "ro", "so", "ro", "cp"]),
+                        {"origin": "boundary"}))
+        T2 = {"q0": ([], [("n", "a0"), ("n", "b0")]), "q1": ([("n", "q0")], [("s", "a1"), ("n", "b1")]),
+              "q2": ([("s", "q1")], [("n", "a2")]), "q3": ([], [("n", "a3"), ("s", "b3"), ("n", "c3")]),
+              "q4": ([("n", "q2"), ("s", "q3"), ("n", "q0")], [("n", "a4"), ("s", "b4"), ("p", "c4"), ("n", "d4")])}
+        T2["q4"] = ([("n", "q2"), ("s", "q3")], T2["q4"][1])
+        B.append(E.Case("b-three-levels-static-middle", self.tree_case_lines(E.Rng(22), T2, "q4", ["so", "ro", "so", "ro", "cp"]),
+                        {"origin": "boundary"}))
+        T3 = {"r0": ([], [("n", "x"), ("n", "y")]), "r1": ([("s", "r0")], [("n", "z")]), "r2": ([("n", "r1")], [("n", "w")]),
+              "r3": ([("s", "r2")], [("n", "v")])}
+        B.append(E.Case("b-static-chain", self.tree_case_lines(E.Rng(23), T3, "r3", ["so", "ro", "cp"]), {"origin": "boundary"}))
+        T4 = {"s0": ([], [("p", "x"), ("n", "k")]), "s1": ([("n", "s0")], [("n", "x"), ("s", "k")])}
+        mk("same-name-static-twin", self.prog_lines(T4) + ["useg s1", "setm a[i1,i2,i3,i4]", "so 1", "setm a[i5,i6,i7,i8]", "ro 1"])
         mk("crash-points", ["set i1 s61 a[i1,i2] i7 m{i1:i2}", "so 0", "set i2 s62 a[i3] i8 m{}", "cp 0", "cf 0",
                             "ro 0"])
         mk("crash-points-nofile", ["set i1 s61 a[i1,i2] i7 m{i1:i2}", "cp 1", "cf 1"])
@@ -446,8 +592,12 @@ class C16(Prop):
 
     def gen_case(self, rng, cid, tier):
         kind = rng.weighted([("rt", 8), ("malformed", 8), ("trunc-all", 1), ("object", 3), ("crash", 1), ("renamed", 2),
-                             ("many", 1), ("names", 1)])
+                             ("many", 1), ("names", 1), ("tree", 6)])
         lines = ["rm"]
+        if kind == "tree":
+            progs, top = self.gen_progs(rng, allow_dups=rng.chance(1, 8))
+            steps = rng.choice([["so", "ro"], ["so", "ro", "so", "ro"], ["so", "ro", "cp"], ["so", "cp"]])
+            return E.Case(cid, self.tree_case_lines(rng, progs, top, steps), {"origin": "generated", "kind": kind})
         if kind == "renamed":
             return E.Case(cid, self.renamed_case(rng, 24 if rng.chance(1, 3) else 7), {"origin": "generated", "kind": kind})
         if kind == "many":
